@@ -53,7 +53,7 @@ type variant struct {
 type histKey string
 
 type treeNode struct {
-	block []byte     // wire bytes of the last block of the prefix
+	block []byte      // wire bytes of the last block of the prefix
 	obs   *chainx.Obs // reference observation after it
 	names []string
 }
